@@ -383,3 +383,348 @@ def chain_subslot(rng, n):
             ts.append(p.add_task("t%d" % k, effort=eff_secs, alloc=[r], deps=deps, prio=prio))
         out.append(("sub%04d" % i, p))
     return out
+
+
+# --------------------------------------------------------------------------------------
+def _mk_resources(rng, p, n, effs=("1",), cal="default"):
+    rs = []
+    for k in range(n):
+        kw = {}
+        if cal == "mixed" and rng.random() < 0.5:
+            kw["hours"] = rng.choice([std_hours(480, 960), std_hours(540, 1020, range(6)), std_hours(600, 1080)])
+        rs.append(p.add_res("r%d" % k, eff=rng.choice(effs), **kw))
+    return rs
+
+
+def core_dialect(rng, n, max_tasks=7):
+    """C07/C08/C09: slot-aligned calendars, efforts whole slots at the efficiency, DAGs, priorities, gaps,
+    pins, leaves, teams, all resolutions."""
+    out = []
+    for i in range(n):
+        G = rng.choice([3600, 3600, 1800, 900, 600, 300])
+        start = datetime(2024, 1, 1) + timedelta(days=rng.randrange(0, 14))
+        p = Proj(start=start, G=G, length="+6w")
+        nres = rng.randint(1, 3)
+        rs = []
+        for k in range(nres):
+            eff = rng.choice(["1", "1", "1", "2", "0.5"])
+            hours = None
+            if rng.random() < 0.4:
+                a = rng.choice([480, 540, 600])
+                hours = std_hours(a, a + 60 * rng.choice([4, 6, 8]), range(rng.choice([5, 6, 7])))
+            leaves = []
+            if rng.random() < 0.3:
+                d0 = start.replace(hour=0, minute=0) + timedelta(days=rng.randint(1, 9))
+                leaves.append((d0, d0 + timedelta(days=rng.randint(1, 3))))
+            rs.append(p.add_res("r%d" % k, eff=eff, hours=hours, leaves=leaves))
+        nt = rng.randint(2, max_tasks)
+        ts = []
+        for k in range(nt):
+            team = [rng.choice(rs)]
+            if len(rs) > 1 and rng.random() < 0.2:
+                # team of equal efficiency members
+                same = [r for r in rs if r.eff == team[0].eff and r is not team[0]]
+                if same:
+                    team.append(rng.choice(same))
+            eff = team[0].eff
+            slots = rng.randint(1, 12)
+            effort = int(slots * G * eff)          # whole slots of clock time
+            if effort % 60:
+                effort = slots * G
+                team = [r for r in rs if r.eff == 1][:1] or [p.add_res("rx%d" % k)]
+            deps = []
+            if ts and rng.random() < 0.6:
+                for d in rng.sample(ts, min(len(ts), rng.choice([1, 1, 2]))):
+                    gap = rng.choice([0, 0, G, 2 * G, G // 2 if (G // 2) % 60 == 0 else G, 86400]) if rng.random() < 0.4 else 0
+                    deps.append((d, rng.random() < 0.15, gap))
+            prio = rng.choice([None, None, 300, 500, 700, 900])
+            st = None
+            if rng.random() < 0.12 and not deps:
+                st = start.replace(hour=0, minute=0) + timedelta(days=rng.randint(0, 6), hours=rng.choice([9, 10, 13]))
+                if st < start:
+                    st = None
+            ts.append(p.add_task("t%d" % k, effort=effort, alloc=team, deps=deps, prio=prio, start=st))
+        out.append(("core%04d" % i, p))
+    return out
+
+
+def calendars(rng, n, zones=None):
+    """C02: own hours (several intervals, cross-midnight, day subsets), shifts, time zones with DST,
+    leaves / vacations / bookings, resolutions, ASAP and ALAP."""
+    zones = zones or ["Asia/Tokyo", "America/New_York", "Europe/Berlin", "Australia/Sydney", "Asia/Kolkata",
+                      "Pacific/Kiritimati", "Pacific/Pago_Pago", "America/St_Johns", "Asia/Kathmandu", "Europe/London",
+                      "America/Sao_Paulo", "Pacific/Chatham", "UTC"]
+    dst_starts = [datetime(2024, 3, 4), datetime(2024, 3, 25), datetime(2024, 10, 21), datetime(2024, 10, 28),
+                  datetime(2024, 3, 31), datetime(2024, 9, 30), datetime(2024, 1, 1), datetime(2025, 3, 3)]
+    out = []
+    for i in range(n):
+        G = rng.choice([3600, 3600, 1800, 900])
+        start = rng.choice(dst_starts) + timedelta(hours=rng.choice([0, 0, 6, 9]))
+        alap = rng.random() < 0.25
+        vac = []
+        if rng.random() < 0.3:
+            v0 = start.replace(hour=0) + timedelta(days=rng.randint(1, 6))
+            vac.append((v0, v0 + timedelta(days=rng.randint(1, 2)) if rng.random() < 0.6 else None))
+        gl = []
+        if rng.random() < 0.2:
+            v0 = start.replace(hour=0) + timedelta(days=rng.randint(1, 8))
+            gl.append((v0, v0 + timedelta(days=1) if rng.random() < 0.5 else None))
+        p = Proj(start=start, G=G, length="+3w", alap=alap, vac=vac, gleaves=gl)
+        rs = []
+        for k in range(rng.randint(1, 3)):
+            style = rng.choice(["default", "day", "two", "night", "subset", "shift"])
+            hours = None
+            shift = None
+            if style == "day":
+                a = rng.choice([360, 480, 540])
+                hours = std_hours(a, a + 480, range(rng.choice([5, 7])))
+            elif style == "two":
+                hours = {d: [(480, 720), (780, 1020)] for d in range(5)}
+            elif style == "night":
+                hours = {d: [(1320, 360)] for d in rng.choice([range(5), range(7), [0, 2, 4]])}
+            elif style == "subset":
+                hours = {d: [(540, 1020)] for d in rng.sample(range(7), 3)}
+            elif style == "shift":
+                shift = p.add_shift("s%d" % k, rng.choice([std_hours(540, 1080), {d: [(1320, 360)] for d in range(5)},
+                                                           {d: [(0, 480), (960, 1440)] for d in range(7)}]))
+            tz = rng.choice(zones) if (hours is not None or shift) and rng.random() < 0.6 else None
+            leaves = []
+            bookings = []
+            if rng.random() < 0.35:
+                d0 = start.replace(hour=0, minute=0) + timedelta(days=rng.randint(1, 8))
+                leaves.append((d0, d0 + timedelta(days=rng.randint(1, 3)) if rng.random() < 0.7 else None))
+            if rng.random() < 0.15:
+                b0 = start.replace(hour=0, minute=0) + timedelta(days=rng.randint(1, 5), hours=rng.choice([9, 12, 23]))
+                bookings.append((b0, rng.choice([2, 4, 6]) * 3600))
+            rs.append(p.add_res("r%d" % k, hours=hours, shift=shift, tz=tz, leaves=leaves, bookings=bookings))
+        ts = []
+        endpin = start + timedelta(days=14)
+        for k in range(rng.randint(1, 4)):
+            r = rng.choice(rs)
+            effort = G * rng.randint(2, 30)
+            deps = [(rng.choice(ts), False, 0)] if ts and rng.random() < 0.5 else []
+            t = p.add_task("t%d" % k, effort=effort, alloc=[r], deps=deps)
+            ts.append(t)
+        if alap:
+            # deadlines only on sinks
+            sinks = [t for t in ts if not any(d[0] is t for u in ts for d in u.deps)]
+            for t in sinks:
+                t.end = endpin
+        out.append(("cal%04d" % i, p))
+    return out
+
+
+def dags(rng, n, alap_share=0.3):
+    """C04: nested task trees, own / inherited / precedes dependencies, gaps, on-start, dated containers."""
+    out = []
+    for i in range(n):
+        G = rng.choice([3600, 3600, 1800])
+        start = datetime(2024, 2, 5)
+        alap = rng.random() < alap_share
+        p = Proj(start=start, G=G, length="+8w", alap=alap)
+        rs = [p.add_res("r%d" % k) for k in range(rng.randint(1, 3))]
+        conts = []
+        leaves = []
+        allt = []
+
+        def mk(parent, depth, prefix):
+            nk = rng.randint(1, 3)
+            for k in range(nk):
+                name = "%s%d" % (prefix, k)
+                if depth < 3 and rng.random() < 0.35:
+                    c = p.add_task(name, parent=parent)
+                    if not alap and rng.random() < 0.3:
+                        c.start = start + timedelta(days=rng.randint(0, 5), hours=9)
+                    conts.append(c)
+                    allt.append(c)
+                    mk(c, depth + 1, name + "x")
+                else:
+                    ms = rng.random() < 0.1
+                    t = p.add_task(name, parent=parent, effort=0 if ms else G * rng.randint(1, 10) // rng.choice([1, 1, 2]),
+                                   alloc=[] if ms else [rng.choice(rs)], milestone=ms,
+                                   prio=rng.choice([None, None, 300, 700]))
+                    if t.effort % 60:
+                        t.effort = G
+                    leaves.append(t)
+                    allt.append(t)
+        mk(None, 0, "n")
+        # dependencies: only backwards in declaration order -> DAG; containers may carry them too
+        order = p.ordered(p.tasks)
+        pos = {id(t): j for j, t in enumerate(order)}
+
+        def related(a, b):
+            x = a
+            while x is not None:
+                if x is b:
+                    return True
+                x = x.parent
+            x = b
+            while x is not None:
+                if x is a:
+                    return True
+                x = x.parent
+            return False
+        for t in order:
+            if rng.random() < 0.5:
+                cands = [u for u in order if pos[id(u)] < pos[id(t)] and not related(u, t) and (not u.kids or rng.random() < 0.5)]
+                cands = [u for u in cands if not u.kids]  # depend on leaves only (containers as targets: separate profile)
+                if cands:
+                    for u in rng.sample(cands, min(len(cands), rng.choice([1, 1, 2]))):
+                        gap = rng.choice([0, 0, G // 2, G, 4 * G, 86400]) if rng.random() < 0.5 else 0
+                        if gap % 60:
+                            gap = G
+                        onstart = (not alap) and rng.random() < 0.2
+                        if rng.random() < 0.15 and not gap and not onstart and not t.kids and not u.kids:
+                            u.precedes.append(t)
+                        else:
+                            t.deps.append((u, onstart, gap))
+        if alap:
+            sinks = [t for t in leaves if not any(d[0] is t for u in order for d in u.deps)
+                     and not any(t in u.precedes for u in order) and not t.precedes]
+            for t in sinks:
+                if rng.random() < 0.7:
+                    t.end = start + timedelta(days=rng.randint(20, 30), hours=17)
+            for c in conts:
+                if c.parent is None and rng.random() < 0.4:
+                    c.end = start + timedelta(days=rng.randint(25, 35), hours=17)
+        out.append(("dag%04d" % i, p))
+    return out
+
+
+def limits_profile(rng, n):
+    """C05: dailymax / weeklymax on resources, resource groups, task subtrees; overrunning projects; year ends."""
+    starts = [datetime(2024, 1, 1), datetime(2024, 2, 26), datetime(2020, 12, 21), datetime(2026, 12, 21),
+              datetime(2021, 1, 1), datetime(2027, 1, 1), datetime(2024, 12, 23), datetime(2025, 12, 29),
+              datetime(2024, 1, 3), datetime(2024, 1, 6), datetime(2023, 12, 31)]
+    out = []
+    for i in range(n):
+        G = rng.choice([3600, 3600, 1800, 900])
+        start = rng.choice(starts) + timedelta(days=rng.randrange(0, 7))
+        length = rng.choice(["+1w", "+2w", "+4w", "+3d"])
+        p = Proj(start=start, G=G, length=length)
+        grp = p.add_res("g") if rng.random() < 0.5 else None
+        if grp is not None and rng.random() < 0.7:
+            grp.limits.append((rng.choice(["d", "w"]), 3600 * rng.choice([4, 6, 10, 20])))
+        rs = []
+        for k in range(rng.randint(1, 3)):
+            lim = []
+            if rng.random() < 0.6:
+                kind = rng.choice(["d", "d", "w"])
+                val = rng.choice([2, 3, 4, 6, 6.5, 2.5]) * 3600 if kind == "d" else rng.choice([8, 10, 16, 20, 12.5]) * 3600
+                lim.append((kind, int(val)))
+            hours = std_hours(540, 1020, range(7)) if rng.random() < 0.4 else None
+            rs.append(p.add_res("r%d" % k, parent=grp if (grp and rng.random() < 0.8) else None, limits=lim, hours=hours))
+        cont = p.add_task("c") if rng.random() < 0.5 else None
+        if cont is not None and rng.random() < 0.6:
+            cont.limits.append((rng.choice(["d", "w"]), 3600 * rng.choice([3, 5, 8, 12]), rng.choice([None, None, rng.choice(rs)])))
+        ts = []
+        for k in range(rng.randint(1, 5)):
+            r = rng.choice(rs)
+            effort = 3600 * rng.randint(2, 40)
+            lim = []
+            if rng.random() < 0.25:
+                lim.append((rng.choice(["d", "w"]), 3600 * rng.choice([2, 4, 10]), None))
+            deps = [(rng.choice(ts), False, 0)] if ts and rng.random() < 0.4 else []
+            ts.append(p.add_task("t%d" % k, parent=cont if (cont and rng.random() < 0.7) else None, effort=effort,
+                                 alloc=[r], deps=deps, limits=lim, prio=rng.choice([None, 300, 700])))
+        out.append(("lim%04d" % i, p))
+    return out
+
+
+def trees(rng, n):
+    """C10: deep task trees with a mix of schedulable and unschedulable leaves, resource groups."""
+    out = []
+    for i in range(n):
+        G = 3600
+        start = datetime(2024, 4, 1)
+        p = Proj(start=start, G=G, length="+2w")
+        grp = p.add_res("team")
+        rs = [p.add_res("r%d" % k, parent=grp) for k in range(2)]
+        never = p.add_res("never", hours={})     # no working hours at all: allocated tasks cannot be placed
+        leaves = []
+
+        def mk(parent, depth, prefix):
+            for k in range(rng.randint(1, 3)):
+                name = "%s%d" % (prefix, k)
+                if depth < 6 and rng.random() < (0.6 if depth < 3 else 0.3):
+                    c = p.add_task(name, parent=parent)
+                    mk(c, depth + 1, name + "y")
+                else:
+                    kind = rng.random()
+                    if kind < 0.12:
+                        t = p.add_task(name, parent=parent, effort=G * rng.randint(1, 4), alloc=[never])
+                    elif kind < 0.2:
+                        t = p.add_task(name, parent=parent, milestone=True)
+                    else:
+                        t = p.add_task(name, parent=parent, effort=G * rng.randint(1, 12), alloc=[rng.choice(rs)])
+                    if leaves and rng.random() < 0.3:
+                        d = rng.choice(leaves)
+                        if d is not t:
+                            t.deps.append((d, False, 0))
+                    leaves.append(t)
+        mk(None, 0, "n")
+        out.append(("tree%04d" % i, p))
+    return out
+
+
+def alap_profile(rng, n):
+    """C06/C08 backward mode: project-level and task-level ALAP, explicit-end anchors, container deadlines."""
+    out = []
+    for i in range(n):
+        G = rng.choice([3600, 3600, 1800])
+        start = datetime(2024, 5, 6)
+        proj_alap = rng.random() < 0.5
+        p = Proj(start=start, G=G, length="+4w", alap=proj_alap)
+        rs = [p.add_res("r%d" % k, eff=rng.choice(["1", "1", "2", "0.5"])) for k in range(rng.randint(1, 2))]
+        cont = p.add_task("c") if rng.random() < 0.4 else None
+        if cont is not None:
+            cont.end = start + timedelta(days=rng.randint(10, 20), hours=rng.choice([12, 17]))
+        ts = []
+        for k in range(rng.randint(1, 5)):
+            r = rng.choice(rs)
+            unit = rng.choice([G, G, G // 2, G // 4])
+            if unit % 60:
+                unit = G
+            effort = unit * rng.randint(1, 14)
+            deps = []
+            if ts and rng.random() < 0.6:
+                gap = rng.choice([0, 0, G, 3 * G]) if rng.random() < 0.4 else 0
+                deps.append((rng.choice(ts), False, gap))
+            t = p.add_task("t%d" % k, parent=cont if (cont and rng.random() < 0.7) else None, effort=effort, alloc=[r],
+                           deps=deps, mode=None if proj_alap else "alap")
+            ts.append(t)
+        sinks = [t for t in ts if not any(d[0] is t for u in ts for d in u.deps)]
+        for t in sinks:
+            if t.parent is None or rng.random() < 0.5:
+                t.end = start + timedelta(days=rng.randint(8, 22), hours=rng.choice([10, 13, 17]))
+        out.append(("alap%04d" % i, p))
+    return out
+
+
+def teams_alts(rng, n):
+    """C03: team allocations (same instants), alternatives (exactly one candidate set), sub-slot efforts."""
+    out = []
+    for i in range(n):
+        G = rng.choice([3600, 1800])
+        start = datetime(2024, 6, 3)
+        p = Proj(start=start, G=G, length="+3w")
+        rs = [p.add_res("r%d" % k, hours=rng.choice([None, None, std_hours(480, 960), std_hours(600, 1080)]))
+              for k in range(rng.randint(2, 4))]
+        ts = []
+        for k in range(rng.randint(2, 5)):
+            unit = rng.choice([G, G // 2, G // 4, G // 3])
+            if unit % 60:
+                unit = G
+            effort = unit * rng.randint(1, 12)
+            mode = rng.random()
+            alloc = [rng.choice(rs)]
+            alt = []
+            if mode < 0.45:
+                alloc = rng.sample(rs, rng.randint(2, min(3, len(rs))))
+            elif mode < 0.7:
+                others = [r for r in rs if r is not alloc[0]]
+                alt = [rng.choice(others)]
+            deps = [(rng.choice(ts), False, rng.choice([0, 0, G // 2 if (G // 2) % 60 == 0 else 0]))] if ts and rng.random() < 0.5 else []
+            ts.append(p.add_task("t%d" % k, effort=effort, alloc=alloc, alt=alt, deps=deps, prio=rng.choice([None, 300, 700])))
+        out.append(("team%04d" % i, p))
+    return out
